@@ -401,6 +401,20 @@ func runC03(r *Run) {
 		}
 		r.Floor("R7", "sign-doc fields of "+fname, n, 14)
 	}
+	// the Web3Tx route rebuilds the sign bytes from tx accessors: every fee-related accessor of the tx must feed StdSignBytes
+	if vs, ok := P.FnOK("app/ante/cosmos.VerifySignature"); ok {
+		eachCall(vs, func(ci CallInfo) {
+			if ci.Name != "StdSignBytes" {
+				return
+			}
+			all := backSlice(ci.Instr.Common().Args...)
+			for _, acc := range []string{"GetFee", "GetGas", "GetMemo", "GetTimeoutHeight", "GetMsgs", "FeeGranter"} {
+				has := all.HasCall(func(g CallInfo) bool { return g.Name == acc })
+				r.Check(has, "R7", fnID(vs)+"#signbytes-cover-tx."+acc, P.Pos(instrPos(ci.Instr)), "tx."+acc+"() feeds the sign bytes",
+					"the sign bytes rebuilt for the EIP-712 (Web3Tx) route do not depend on tx."+acc+"(): that part of the transaction is not covered by the signature and can be altered by a relayer")
+			}
+		})
+	}
 }
 
 func stripCall(v ssa.Value) ssa.Value {
